@@ -1,5 +1,5 @@
 SPECIFICATION Spec
 CONSTANTS MaxL = 6  MaxT = 3  BufSz = 2  Cap = 5
-  KeepProbe = TRUE  ProbeShort = TRUE  TeeOnErr = TRUE  PadShort = FALSE  PortFromHost = FALSE  InPlace = FALSE
+  KeepProbe = TRUE  ProbeShort = TRUE  TeeOnErr = TRUE  PadShort = FALSE  PortFromHost = FALSE  Pooled = FALSE  InPlace = FALSE
 INVARIANT NoViolation
 CHECK_DEADLOCK FALSE
